@@ -1661,6 +1661,12 @@ class TLSConnection(TLSRecordLayer):
                                                      version=(3, 4))
                 signature_scheme = getFirstMatching(availSigAlgs,
                                                     valid_sig_algs)
+                if signature_scheme is None:
+                    for result in self._sendError(
+                            AlertDescription.handshake_failure,
+                            "No common signature algorithm for the client "
+                            "certificate"):
+                        yield result
                 scheme = SignatureScheme.toRepr(signature_scheme)
                 signature_scheme = getattr(SignatureScheme, scheme)
 
